@@ -40,7 +40,8 @@ INT_CALLS = {"str_idx_as_int", "len", "int", "orderlen", "sum"}
 INT_TUPLE_CALLS = {"read_length", "read_number"}
 
 
-CFG = Config(int_params=INT_PARAMS, int_locals=INT_LOCALS, int_calls=INT_CALLS, int_tuple_calls=INT_TUPLE_CALLS)
+CFG = Config(int_params=INT_PARAMS, int_locals=INT_LOCALS, int_calls=INT_CALLS, int_tuple_calls=INT_TUPLE_CALLS,
+             cond_subexprs=True, trivial_tests=True)
 
 
 def Fn(fdef):
